@@ -23,7 +23,11 @@ EXTENDS Symbols, FFITypes, TLC, Json
 CONSTANTS NFns,        \* declarations per library
           MinArity, MaxArity,
           Kinds,       \* subset of {"fn","variadic","noreturn","msabi","inline","static","vectorcall","gvar"}
-          Shapes,      \* subset of {"plain","keyword","dollar","asm","asmu","renamed"}
+          Shapes,      \* subset of {"plain","keyword","dollar","asm","asmu","renamed","kwtail","dollartail"}
+                       \* kwtail / dollartail: the LITERAL C name is what rust_mangle makes of the neighbouring
+                       \* declaration's name (`match_` next to `match`, `f_x_` next to `f$x`): the Rust
+                       \* identifiers collide, the overload counter renames the second one and only the
+                       \* link name still says which symbol is meant
           ArgSet,      \* "all" | "reps" | "value"
           RetSet,      \* "int" | "all" | "reps"
           OptSet,      \* "none" | "all" | "plink" (--prefix-link-name only)
@@ -82,8 +86,11 @@ Start(shape, kind, pi, pd, ar, w) ==
   /\ kind = "variadic" => ar >= 1
   /\ shape = "renamed" => opt.rename
   /\ shape = "keyword" => Len(lib) < Len(KwPool)
+  /\ shape \in {"kwtail", "dollartail"} => kind = "fn" /\ NFns = 2 /\ pi + pd = 0
   /\ cur' = [kind |-> kind, shape |-> shape, args |-> PadArgs(pi, pd), toks |-> PadToks(pi, pd),
-             va |-> <<>>, vatoks |-> <<>>, kw |-> IF shape = "keyword" THEN KwAt(Len(lib)) ELSE 0,
+             va |-> <<>>, vatoks |-> <<>>,
+             kw |-> IF shape = "keyword" THEN KwAt(Len(lib))
+                    ELSE IF shape = "kwtail" THEN KwAt(1 - Len(lib)) ELSE 0,     \* the neighbour's keyword
              npad |-> pi + pd, want |-> ar, w |-> w,
              wantva |-> IF kind = "variadic" THEN (Len(lib) + ar) % 4 ELSE 0]
   /\ UNCHANGED <<opt, lib, seen, vseen, ovl>>
@@ -131,6 +138,9 @@ NamesOf(c, i, ret, rtok) ==
   LET b == BaseName(c, i, ret, rtok) IN
   CASE c.shape = "keyword" -> <<KwPool[c.kw], KwPool[c.kw], KwPool[c.kw]>>
     [] c.shape = "dollar" -> <<b \o <<"$", "x">>, b \o <<"$", "x">>, b \o <<"$", "x">>>>
+    [] c.shape = "kwtail" -> LET n == KwPool[c.kw] \o <<"_">> IN <<n, n, n>>
+    [] c.shape = "dollartail" ->       \* rust_mangle of the neighbour's "dollar" name (same signature assumed)
+         LET n == BaseName(c, 1 - i, ret, rtok) \o <<"_", "x", "_">> IN <<n, n, n>>
     [] c.shape = "asm" -> <<b, b, SYM_ \o b>>
     [] c.shape = "asmu" -> <<b, b, <<"_">> \o b>>
     [] c.shape = "renamed" ->
